@@ -232,12 +232,22 @@ func checkC11(c Case) *Failure {
 		return nil
 	case "law":
 		return checkC11Law(c)
+	case "ended-context-operand":
+		// the E operand realised by the context ending while the operand of is unknown is evaluated
+		out, pc, _ := c20Run(c, int64(c.K))
+		if !pc.fired.Load() {
+			return nil
+		}
+		if out.Class == "ok" || out.Class == "null" {
+			return &Failure{Sig: "C11/is-unknown-over-ended-context/" + c.Extra["err"] + "/" + c.Extra["ctx"], Expected: "a non-suppressible error: the operand did not evaluate to unknown, the context ended (" + c.Extra["err"] + ")", Observed: out.String()}
+		}
+		return nil
 	}
 	panic("harness: C11 rule " + c.Rule)
 }
 
 func runC11(r *Run) {
-	r.Rule("complete truth tables: for each connective (&&, ||, !, is unknown) every assignment of {T,F,U,E(hard error)} to its operands, each outcome realised by EVERY member of a family of 9-13 realisations (comparison, exists, starts with, like_regex, nested connective, is unknown, arithmetic error, strict structural error) => all ordered pairs of realisations, observed as a top-level predicate check (Query and Match), inside a filter, inside exists(filter), in both modes, against the Kleene tables (with an E operand: {hard error} or the value decided by the other operand); then the laws (commutativity in value, double negation, De Morgan, is unknown two-valued) over all ordered pairs of a generated condition pool x all documents of <=3 nodes; non-trivial = every evaluated combination (each is a distinct program)")
+	r.Rule("complete truth tables: for each connective (&&, ||, !, is unknown) every assignment of {T,F,U,E(hard error)} to its operands, each outcome realised by EVERY member of a family of 9-13 realisations (comparison, exists, starts with, like_regex, nested connective, is unknown, arithmetic error, strict structural error) => all ordered pairs of realisations, observed as a top-level predicate check (Query and Match), inside a filter, inside exists(filter), in both modes, against the Kleene tables (with an E operand: {hard error} or the value decided by the other operand); E also realised by the context ending at the k-th poll (every k; Canceled, DeadlineExceeded, cancel-with-cause) while the operand of is unknown is evaluated; then the laws (commutativity in value, double negation, De Morgan, is unknown two-valued) over all ordered pairs of a generated condition pool x all documents of <=3 nodes; non-trivial = every evaluated combination (each is a distinct program)")
 	type job struct{ c Case }
 	var jobs []Case
 	modes := []string{"lax", "strict"}
@@ -302,5 +312,45 @@ func runC11(r *Run) {
 	})
 	r.states.Add(int64(len(cells)))
 	r.Extra("truth_table_cells_covered", len(cells))
+	// E realised by an ended context: (p) is unknown for every realisation p, at top level and in a filter,
+	// the context reporting done from the k-th poll for every k, three kinds of ended context
+	var ejobs []Case
+	for _, mode := range modes {
+		prefix := ""
+		if mode == "strict" {
+			prefix = "strict "
+		}
+		for _, a := range []string{"T", "F", "U"} {
+			for _, ra := range kleeneFamilies[a] {
+				if ra.mode != "" && ra.mode != mode {
+					continue
+				}
+				for ctxKind, text := range map[string]string{"top": prefix + "(" + ra.text + ") is unknown", "filter": prefix + "$ ? ((" + ra.text + ") is unknown)"} {
+					for _, ek := range []string{"canceled", "deadline", "cause"} {
+						for _, silent := range []bool{false, true} {
+							ejobs = append(ejobs, Case{Rule: "ended-context-operand", Path: text, Doc: c11Doc, Num: "float64", Silent: silent, Entry: "query",
+								Extra: map[string]string{"err": ek, "ctx": ctxKind, "mode": mode}})
+						}
+					}
+				}
+			}
+		}
+	}
+	r.Bound("ended_context_cases", len(ejobs))
+	r.ParFor(len(ejobs), func(i int) {
+		c := ejobs[i]
+		_, bpc, _ := c20Run(c, -1)
+		n := bpc.polls.Load()
+		for k := int64(0); k < n; k++ {
+			c.K = int(k)
+			r.evals.Add(1)
+			r.traces.Add(1)
+			r.transitions.Add(1)
+			if f := checkC11(c); f != nil {
+				r.Fail(c, f)
+			}
+		}
+		r.Distinct(c.Path + "|" + c.Extra["err"] + fmt.Sprint(c.Silent))
+	})
 	runC11Laws(r)
 }
